@@ -261,7 +261,8 @@ func (r *rewriter) rewriteSelect(n *ast.SelectStmt) ast.Stmt {
 		cc := cl.(*ast.CommClause)
 		if cc.Comm == nil {
 			hasDefault = true
-			clauses = append(clauses, &ast.CaseClause{List: []ast.Expr{&ast.UnaryExpr{Op: token.SUB, X: &ast.BasicLit{Kind: token.INT, Value: "1"}}}, Body: cc.Body, Case: cc.Case})
+			// the select's default clause becomes the switch's default (Select returns -1)
+			clauses = append(clauses, &ast.CaseClause{List: nil, Body: cc.Body, Case: cc.Case})
 			continue
 		}
 		name := fmt.Sprintf("__c%d_%d", site, idx)
@@ -292,6 +293,10 @@ func (r *rewriter) rewriteSelect(n *ast.SelectStmt) ast.Stmt {
 	args := []ast.Expr{&ast.BasicLit{Kind: token.INT, Value: strconv.Itoa(site)}, ast.NewIdent(strconv.FormatBool(hasDefault))}
 	for _, nm := range names {
 		args = append(args, ast.NewIdent(nm.(*ast.Ident).Name))
+	}
+	if !hasDefault {
+		// keeps the statement "terminating" when every clause terminates, as the select was
+		clauses = append(clauses, &ast.CaseClause{List: nil, Body: []ast.Stmt{&ast.ExprStmt{X: call(ast.NewIdent("panic"), &ast.BasicLit{Kind: token.STRING, Value: `"verifrt: select returned no clause"`})}}})
 	}
 	sw := &ast.SwitchStmt{Switch: n.Select, Tag: r.rt("Select", args...), Body: &ast.BlockStmt{List: clauses, Lbrace: n.Body.Lbrace, Rbrace: n.Body.Rbrace}}
 	if len(names) > 0 {
